@@ -16,7 +16,7 @@ LEVEL = 'model_checking'
 RULE = ('BFS over the real prior_combinations_sample/GLOBAL_PRIOR_COMB_COUNTS; state = counter (shifted by its minimum for '
         'stable lists, raw otherwise) + reference tally; event = one batch (candidate list, cap). (a) stable duplicate-free '
         'lists of m candidates, every cap in 1..m+1, to closure; (b) every non-empty sub-list of 4 candidates x caps {1,2,5} '
-        'to a depth bound; (b2) lists with duplicated candidates; (c) end-to-end batches through compute_batch_ranking. '
+        'to a depth bound; (b2) lists with duplicated candidates; (c) end-to-end batches through compute_batch_ranking, and the complete ranking task on files with a trailing partial batch (exported and returned counts). '
         'non-trivial = distinct states in which at least two candidates have different counts')
 ASSUMPTIONS = ['the sampler consults the counter only through a sort key, so shifting all counts by the minimum preserves every future (used for canonicalisation in family (a) only; the shifted raw dictionary is part of the hash)']
 
@@ -158,6 +158,8 @@ def _job(job):
         st.notes.append(f'duplicated candidates: states={n_states} depth_bound={depth_bound}')
     elif kind == 'e2e':
         _e2e(st, job[1])
+    elif kind == 'e2e_task':
+        return _e2e_task(job[1])
     return st
 
 
@@ -205,12 +207,65 @@ def _e2e(st, n_batches):
     harness.reset_state()
 
 
+def _e2e_task(job):
+    """(c2) the complete ranking task on files with a trailing partial batch (> 1024 rows): combination_estimation_counts.json and the copy returned by
+    estimate_importances_minibatches must equal the number of batches (including the tail batch) in which each candidate pair was evaluated"""
+    import pandas as pd
+    from mc import pipeline, harness
+    from mc.checks.c08 import tail_text
+    st = Stats()
+    cr = _cr()
+    for (q, t, B, cap) in job:
+        text = tail_text(q * B + t, 1, [])
+        over = dict(minibatch_size=B, subsampling=1, target_ranking_only='True', heuristic='MI-numba-randomized', combination_number_upper_bound=cap,
+                    include_cardinality_in_feature_names='False')
+        ok, obs = safe(pipeline.run_task, text, over)
+        st.count('evaluations')
+        st.count('transitions', q + (1 if t > 1024 else 0))
+        st.count('states', q + (1 if t > 1024 else 0))
+        st.count('traces_validated')
+        case = {'kind': 'e2e_task', 'q': q, 't': t, 'B': B, 'cap': cap}
+        if not ok:
+            st.violation(case, f'ranking task raised {obs}', {'family': 'e2e_task', 'fail': 'exception'})
+            continue
+        args = harness.make_args(**{k: v for k, v in over.items()})
+        cands = cr.get_combinations_from_columns(pd.Index(['f1', 'f2', 'label']), args)
+        tally = Counter()
+        for trip in obs['batch_triplets']:
+            pairs = {frozenset((a, b)) for a, b, _ in trip}
+            for c in cands:
+                if frozenset(c) in pairs:
+                    tally[str(c)] += 1
+        exp = {str(c): tally.get(str(c), 0) for c in cands}
+        n_b = len(obs['batch_triplets'])
+        if n_b != q + (1 if t > 1024 else 0):
+            st.violation(case, f'{n_b} batches scored, expected {q + (1 if t > 1024 else 0)}', {'family': 'e2e_task', 'fail': 'batches'})
+            continue
+        js = obs['combination_estimation_counts.json']
+        ret = obs.get('returned')
+        got_ret = {str(k): v for k, v in dict(ret[7]).items()} if ret is not None else None
+        if n_b and js is None:
+            st.violation(case, f'combination_estimation_counts.json missing (exit={obs["exit"]})', {'family': 'e2e_task', 'fail': 'json_missing'})
+        for name, got in (('combination_estimation_counts.json', js), ('counts returned by estimate_importances_minibatches', got_ret)):
+            if got is None:
+                continue
+            got = {k: v for k, v in got.items() if v or k in exp}
+            if got != {k: v for k, v in exp.items() if v or k in got}:
+                st.violation(case, f'{name}: {got} != number of batches in which each pair was evaluated {exp} ({n_b} batches incl. tail)', {'family': 'e2e_task', 'fail': name[:20]})
+        vals = list(exp.values())
+        if vals and max(vals) - min(vals) > 1:
+            st.violation(case, f'unfair counts {exp}', {'family': 'e2e_task', 'fail': 'unfair'})
+    return st
+
+
 def run(ctx):
     ms = range(1, 6) if not ctx.thorough else range(1, 8)
     jobs = [('stable', m) for m in ms]
     jobs.append(('changing', 3 if not ctx.thorough else 4))
     jobs.append(('dups', 4 if not ctx.thorough else 6))
     jobs.append(('e2e', 5 if not ctx.thorough else 9))
+    tcs = [(q, t, 1100, cap) for (q, t) in ((1, 0), (0, 1030), (1, 1030), (2, 1099), (3, 0)) for cap in (2, 9)]
+    jobs += [('e2e_task', tcs[i::5]) for i in range(5)]
     for st in pmap(_job, jobs):
         ctx.stats.merge(st)
     if ctx.stats.n.get('not_closed'):
@@ -224,6 +279,8 @@ def run(ctx):
 
 def eval_case(case):
     """Replay one event history (family inferred from the events' shape) or an e2e configuration."""
+    if case.get('kind') == 'e2e_task':
+        return [v['what'] for v in _e2e_task([(case['q'], case['t'], case['B'], case['cap'])]).violations]
     if case.get('kind') == 'e2e':
         st = Stats()
         _e2e(st, case['batches'])
